@@ -736,6 +736,7 @@ class Evaluator:
 
     # ---- comprehensions
     _bcount = itertools.count()
+    _objcount = itertools.count()
 
     def comp(s, e, env, mod, depth, kind):
         env2 = {'__parent__': env}
@@ -994,9 +995,11 @@ class Evaluator:
                 d[k] = v
             return Rec(cls.name, d, (m, cls))
         if init and isinstance(init[1], ast.FunctionDef) and depth < s.depth_limit:
-            rec = Rec(cls.name, {}, (m, cls))
-            s.call_fn(init[1], init[0], [rec] + list(args), kw, {'__parent__': None}, depth + 1)
-            return rec
+            # run __init__ on a fresh atom so that attribute stores are merged path-sensitively, then collect them into a record
+            tag = ('obj', cls.name, next(Evaluator._objcount))
+            s.call_fn(init[1], init[0], [Poly.atom(tag)] + list(args), kw, {'__parent__': None}, depth + 1)
+            fields = {k[1]: v for k, v in s.stores.items() if k[0] == tag and isinstance(k[1], str)}
+            return Rec(cls.name, fields, (m, cls))
         return Rec(cls.name, dict(kw, **{f'#{i}': a for i, a in enumerate(args)}), (m, cls))
 
     def builtin(s, name, args, kw, mod, depth):
@@ -1486,8 +1489,9 @@ def term_equal(a, b) -> bool:
     return same(a, b)
 
 
-def compare_terms(code, spec):
+def compare_terms(code, spec, total=False):
     """three-valued comparison of two (Cond-tree) terms.
+    total=True: the specification is unconditional, so a fully interpreted code leaf that differs on ANY path refutes.
     True   every pair of consistent paths has equal leaves
     False  some pair of paths over the SAME guard atoms with the same polarities has different, fully interpreted leaves
     None   otherwise (opaque parts, or only guard-structure differences)"""
@@ -1498,9 +1502,9 @@ def compare_terms(code, spec):
             d1, d2 = dict(g1), dict(g2)
             if any(d1[k] != d2[k] for k in d1 if k in d2): continue        # inconsistent
             if term_equal(l1, l2): continue
-            if has_opaque(l1) or has_opaque(l2) or any('opq' in k or "'?'" in k for k in list(d1) + list(d2)):
+            if has_opaque(l1) or has_opaque(l2) or any(any(f"'opq', '{t}'" in k or f"('{t}'," in k for t in OPAQUE_TAGS) for k in list(d1) + list(d2)):
                 verdict = None if verdict is not False else False
                 continue
-            if set(d1) == set(d2): return False
+            if set(d1) == set(d2) or (total and not d2): return False
             verdict = None if verdict is not False else False
     return verdict
